@@ -317,15 +317,181 @@ class S:
 
 case('identity on the reference tree', REF1, REF1, REF1)
 
+# ---- T0: both spellings of a pair normalise to the same text
+T0_PAIRS = [
+    ('else after an exiting body', '''
+def g(c, a):
+    if c:
+        return 1
+    else:
+        a.x()
+        return 2
+''', '''
+def g(c, a):
+    if c:
+        return 1
+    a.x()
+    return 2
+'''),
+    ('nested single ifs', '''
+def g(a, b, x):
+    if a:
+        if b:
+            x.go()
+''', '''
+def g(a, b, x):
+    if a and b:
+        x.go()
+'''),
+    ('ternary assignment', '''
+def g(c, a, b):
+    x = a if c else b
+    return x
+''', '''
+def g(c, a, b):
+    if c:
+        x = a
+    else:
+        x = b
+    return x
+'''),
+    ('counter increment', '''
+def g(s):
+    s.n = s.n + 1
+''', '''
+def g(s):
+    s.n += 1
+'''),
+    ('loop with append', '''
+def g(hosts, bad):
+    good = []
+    for h in hosts:
+        if h not in bad:
+            good.append(h)
+    return good
+''', '''
+def g(hosts, bad):
+    good = [h for h in hosts if h not in bad]
+    return good
+'''),
+]
+T0_PAIRS.append(('plain name alias', '''
+def g(status, forced):
+    req = status
+    if forced and req in (1, 2):
+        return False
+    return req
+''', '''
+def g(status, forced):
+    if forced and status in (1, 2):
+        return False
+    return status
+'''))
+
+T0_PAIRS.append(('name alias whose source is re-bound only after its last use',
+                 '''
+def g(self, status, forced):
+    req = status
+    if forced and req in (1, 2):
+        return False
+    if status is None:
+        status = self.status
+    return status
+''', '''
+def g(self, status, forced):
+    if forced and status in (1, 2):
+        return False
+    if status is None:
+        status = self.status
+    return status
+'''))
+
+T0_PAIRS.append(('continue guard in a loop body', '''
+def g(tasks, out):
+    for t in tasks:
+        if not t.final():
+            continue
+        if not t.complete():
+            out.log(t)
+''', '''
+def g(tasks, out):
+    for t in tasks:
+        if t.final() and not t.complete():
+            out.log(t)
+'''))
+T0_PAIRS.append(('loop with early constant return vs any()', '''
+def g(self, point):
+    for seq in self.sequences:
+        if seq.is_valid(point):
+            return True
+    return False
+''', '''
+def g(self, point):
+    if any(seq.is_valid(point) for seq in self.sequences):
+        return True
+    return False
+'''))
+T0_PAIRS.append(('nested loops with append vs comprehension', '''
+def g(self, lim):
+    rel = []
+    for point, m in self.active.items():
+        for t in m.values():
+            if point <= lim and t.ra:
+                rel.append(t)
+    for t in rel:
+        t.go()
+''', '''
+def g(self, lim):
+    rel = [t for point, m in self.active.items() for t in m.values()
+           if point <= lim and t.ra]
+    for t in rel:
+        t.go()
+'''))
+
+T0_NOT = [
+    ('continue guard nested in another block is not rewritten', '''
+def g(tasks):
+    for t in tasks:
+        if t.a:
+            if t.b:
+                continue
+            t.x()
+        t.y()
+'''),
+    ('alias whose source is re-bound before its last use stays', '''
+def g(a):
+    b = a
+    a = a.next()
+    return b, a
+'''),
+    ('list concatenation is not an in-place extend', '''
+def g(x, y):
+    x = x + y
+    return x
+'''),
+    ('loop variable used after the loop: not a comprehension', '''
+def g(hosts):
+    good = []
+    for h in hosts:
+        good.append(h)
+    return good, h
+'''),
+]
+
 
 def main():
     bad = 0
     for name, ref, new, want in CASES:
-        snap = normalize.snapshot({REL: ast.parse(ref)})
+        ref_tree = ast.parse(ref)
+        normalize.t0(ref_tree)
+        snap = normalize.snapshot({REL: ref_tree})
         tree = ast.parse(new)
         notes = normalize.normalize({REL: tree}, ref=snap)
         got = ast.unparse(tree)
-        exp = ast.unparse(ast.parse(new if want is None else want))
+        exp_tree = ast.parse(new if want is None else want)
+        # the always-on canonical spellings (T0) apply to the expectation too
+        normalize.t0(exp_tree)
+        exp = ast.unparse(exp_tree)
         ok = got == exp
         if want is None and notes:
             ok = False
@@ -335,7 +501,24 @@ def main():
             print('--- expected\n' + exp + '\n--- got\n' + got)
             for n in notes:
                 print('   note:', n)
-    print(f'{len(CASES) - bad}/{len(CASES)} cases pass')
+    def t0(src):
+        t = ast.parse(textwrap.dedent(src))
+        normalize.t0(t)
+        return ast.unparse(t)
+    for name, a, b in T0_PAIRS:
+        ok = t0(a) == t0(b)
+        print(('ok   ' if ok else 'FAIL ') + 'T0 pair: ' + name)
+        if not ok:
+            bad += 1
+            print(t0(a) + '\n--- vs\n' + t0(b))
+    for name, a in T0_NOT:
+        ok = t0(a) == ast.unparse(ast.parse(textwrap.dedent(a)))
+        print(('ok   ' if ok else 'FAIL ') + 'T0 left alone: ' + name)
+        if not ok:
+            bad += 1
+            print(t0(a))
+    total = len(CASES) + len(T0_PAIRS) + len(T0_NOT)
+    print(f'{total - bad}/{total} cases pass')
     return 1 if bad else 0
 
 
